@@ -7,7 +7,7 @@
     trusted and tied by the correspondence run only). *)
 From Coq Require Import List NArith ZArith Bool.
 From Tongo Require Import Lib.Bits Lib.Res Model.BitString Model.BitStringD Model.JsonText Model.Json
-  Proofs.BitStringR  Proofs.JsonTextP Proofs.JsonValidP Proofs.JsonP Proofs.JsonAddrP Proofs.JsonAcctP.
+  Proofs.BitStringR  Proofs.JsonTextP Proofs.JsonValidP Proofs.JsonP Proofs.JsonAddrP Proofs.JsonAcctP Proofs.C20CellP.
 Import ListNotations.
 Local Open Scope N_scope.
 
@@ -75,6 +75,14 @@ Theorem C20_cell_root_count_is_error :
   hex_decode (trim_quotes p) = Some bs -> deser bs = Ok cs -> length cs <> 1%nat ->
   parse_cell deser p = Err EOther.
 Proof. exact @parse_cell_root_count. Qed.
+
+(* Cell.UnmarshalJSON with the BOC parser of C07 plugged in: for EVERY text --
+   any header variant (index, CRC, cache bits, lean magics, any field widths,
+   any number of roots), cut or altered anywhere -- a value or an error, never
+   a panic *)
+Theorem C20_cell_decoder_total :
+  forall (s : str) p, parse_cell deser_boc s <> Panic p.
+Proof. exact parse_cell_boc_total. Qed.
 
 (* boc.BitString: every bit list, empty and 1023 bits included *)
 Theorem C20_bitstring_roundtrip : forall l : bits, parse_bitstring (print_bitstring l) = Ok l.
@@ -256,6 +264,7 @@ Print Assumptions C20_print_depends_only_on_written_bits.
 Print Assumptions C20_account_roundtrip.
 Print Assumptions C20_printed_is_json.
 Print Assumptions C20_parse_total.
+Print Assumptions C20_cell_decoder_total.
 
 (** * the premises are satisfiable by non-trivial values *)
 Example C20_ex_uint57 :
